@@ -1,7 +1,7 @@
 (* C20 correspondence, extension: cases for the FastStr model (ModelFast.v), the word-boundary helpers and the
    LineProcessor configurations (ModelText.v).  The old cases are embedded by a coercion.  Definitions only. *)
 From ZV.Common Require Import Base Run.
-From ZV.C20 Require Import Model ModelStr ModelFast ModelText Cases.
+From ZV.C20 Require Import Model ModelStr ModelFast ModelText ModelUtf8 ModelStream Cases.
 Open Scope N_scope.
 
 Definition eqb_on (a b : option N) : bool :=
@@ -50,6 +50,24 @@ Fixpoint eqb_llln (a b : list (list (list N))) : bool :=
 Definition span_n (o : option (nat * nat)) : option (N * N) :=
   match o with Some (a, b) => Some (N.of_nat a, N.of_nat b) | None => None end.
 
+Definition eqb_uobs (a b : option N * option N * N) : bool :=
+  let '(r1, c1, p1) := a in let '(r2, c2, p2) := b in eqb_on r1 r2 && eqb_on c1 c2 && (p1 =? p2).
+Fixpoint eqb_luobs (a b : list (option N * option N * N)) : bool :=
+  match a, b with
+  | [], [] => true
+  | x :: a', y :: b' => eqb_uobs x y && eqb_luobs a' b'
+  | _, _ => false
+  end.
+
+Definition eqb_sobs (a b : N * option (list N) * bool) : bool :=
+  let '(r1, c1, e1) := a in let '(r2, c2, e2) := b in (r1 =? r2) && eqb_obl c1 c2 && Bool.eqb e1 e2.
+Fixpoint eqb_lsobs (a b : list (N * option (list N) * bool)) : bool :=
+  match a, b with
+  | [], [] => true
+  | x :: a', y :: b' => eqb_sobs x y && eqb_lsobs a' b'
+  | _, _ => false
+  end.
+
 Inductive xcase :=
 | XOld (c : case)
 (* FastStr on the pair (a, b): find(b) / find_byte(b[0]) / find_byte_optimized(b[0]) in a; compare, ==,
@@ -61,7 +79,15 @@ Inductive xcase :=
 (* LineProcessor::with_config(cfg bits: 1 skip_empty, 2 trim, 4 preserve endings): process_lines, count_lines,
    process_batches(bsz1 - 1) (the batches and the return value; bsz1 = 0: not called) *)
 | XLinesCfg (cfg : N) (bsz1 : N) (s : list N) (out : list (list N)) (count : N)
-            (batches : list (list (list N))) (ret : N).
+            (batches : list (list (list N))) (ret : N)
+(* unicode.rs: validate_utf8_and_count_chars (None = Err); Utf8ToUtf32Iterator::new fails exactly then; otherwise the
+   operation history ops (0 next_char, 1 prev_char, 2 reset) with (return value, current(), byte_position()) after each *)
+| XUtf8 (s : list N) (count : option N) (ops : list N) (obs : list (option N * option N * N))
+(* utf8_byte_count of the bytes 0 .. 255 *)
+| XByteCount (l : list N)
+(* StreamingLexIterator over the text: ops 0 next, 1 prev, 2 seek_start, 3 seek_end, 4 seek_lower_bound; after each
+   the answer (0 false, 1 true, 2 Err), current(), is_at_end() *)
+| XStream (s : list N) (ops : list N) (obs : list (N * option (list N) * bool)).
 Coercion XOld : case >-> xcase.
 
 Definition xcase_ok (c : xcase) : bool :=
@@ -86,4 +112,12 @@ Definition xcase_ok (c : xcase) : bool :=
       eqb_lln (process_lines utf8_trim c s) out && (count_lines utf8_trim c s =? count) &&
       (if bsz1 =? 0 then true else
        let '(bs, t) := process_batches utf8_trim c (N.to_nat (bsz1 - 1)) s in eqb_llln bs batches && (t =? ret))
+  | XUtf8 s count ops obs =>
+      match u8_new s, validate_count s, count with
+      | Some it, Some n, Some m => (n =? m) && eqb_luobs (u8_run s it ops) obs
+      | None, None, None => null obs
+      | _, _, _ => false
+      end
+  | XByteCount l => eqb_ln (map (fun i => N.of_nat (utf8_byte_count (N.of_nat i))) (seq 0 256)) l
+  | XStream s ops obs => eqb_lsobs (sl_run (sl_new s) ops) obs
   end.
